@@ -104,7 +104,11 @@ def ground_truth(args, truth_file):
 
         effect.update(
             map(
-                lambda filename: _conform_filename(
+                lambda filename: (path.realpath(path.expanduser(filename)), False)
+                if fun_name == args.truth
+                and path.realpath(path.expanduser(filename))
+                == path.realpath(path.expanduser(truth_file))
+                else _conform_filename(
                     filename=filename,
                     search=search,
                     emit_func=emit_func,
